@@ -3,3 +3,5 @@ import BalmProofs.Props.C16
 #print axioms Balm.Cache.rel_reclaim
 #print axioms Balm.Cache.reclaim_transparent
 #print axioms Balm.Cache.relNode_obs
+#print axioms Balm.Impl.exclusion_sound
+#print axioms Balm.Impl.ordBelow_own
